@@ -92,18 +92,19 @@ func (psp *pbSubProto) Unpack(m erpc.Message) error {
 		}
 	}
 
+	// read other (before the body: a message whose body is refused is still known by
+	// its sequence number and type, so that a reply completes its call)
+	m.SetSeq(s.Seq)
+	m.SetMtype(byte(s.Mtype))
+	m.SetServiceMethod(s.ServiceMethod)
+	m.Meta().ParseBytes(s.Meta)
+
 	// read body
 	m.SetBodyCodec(byte(s.BodyCodec))
 	bodyBytes, err := m.XferPipe().OnUnpack(s.Body)
 	if err != nil {
 		return err
 	}
-
-	// read other
-	m.SetSeq(s.Seq)
-	m.SetMtype(byte(s.Mtype))
-	m.SetServiceMethod(s.ServiceMethod)
-	m.Meta().ParseBytes(s.Meta)
 
 	// unmarshal new body
 	err = m.UnmarshalBody(bodyBytes)
